@@ -146,6 +146,8 @@ def generate(tier, rng):
         signed, n, f = G.rand_format(rng, fmin=0)
         r = rng.choice(ROUNDS)
         e = rng.randint(40, 1023)
+        if rng.random() < 0.4:
+            e = rng.randint(60, 66) - f           # the scaled value lands around 2^63 / 2^64, where the 64-bit integer types end
         m = rng.randint(2 ** 52, 2 ** 53 - 1)
         v = Fraction(m) * Fraction(2) ** (e - 52) * rng.choice([1, -1])
         from ..env import is_exact_float
